@@ -123,7 +123,7 @@ def graph_case(draw):
             c["gd"] = [draw(logu(0.3, 3.0)) for _ in range(4)]
         if g == "G3":
             c["bd"] = {"R": [draw(logu(0.5, 3)) for _ in range(2)], "delta": [draw(logu(0.3, 2)) for _ in range(2)], "s": [draw(fl(0.1, 0.8)) for _ in range(2)],
-                       "rho": [0.0, draw(fl(0.1, 0.9))], "offset": draw(logu(0.1, 2.0)), "times": draw(st.sampled_from(["default", "relative", "absolute"]))}
+                       "rho": [0.0, draw(fl(0.1, 0.9))], "offset": draw(logu(0.1, 2.0)), "times": draw(st.sampled_from(["default", "relative", "absolute"])), "loc": draw(st.sampled_from(["plain", "view", "transformed"]))}
     else:
         c["base"] = [draw(fl(-2, 2)) for _ in range(6)]
         c["pos"] = [draw(logu(0.2, 5)) for _ in range(3)]
@@ -202,8 +202,17 @@ def build_spec(c):
         joint.append("gd")
     if g == "G3":
         bd = c["bd"]
+        # the transform's own parameter (loc) is the root height itself, a view of it, or a transformed parameter
+        loc = "root_height"
+        if bd.get("loc") == "view":
+            spec.append({"id": "root_height.view", "type": "ViewParameter", "parameter": "root_height", "indices": "0:1"})
+            loc = "root_height.view"
+        elif bd.get("loc") == "transformed":
+            spec.append({"id": "root_height.affine", "type": "TransformedParameter", "transform": "torch.distributions.AffineTransform",
+                         "parameters": {"loc": 0.25, "scale": 1.0}, "x": "root_height"})
+            loc = "root_height.affine"
         spec.append({"id": "origin", "type": "TransformedParameter", "transform": "torch.distributions.AffineTransform",
-                     "parameters": {"loc": "root_height", "scale": 1.0}, "x": tt.P("origin.offset", [bd["offset"]])})
+                     "parameters": {"loc": loc, "scale": 1.0}, "x": tt.P("origin.offset", [bd["offset"]])})
         bdsk = {"id": "bdsk", "type": "BDSKModel", "tree_model": "tree", "R": tt.P("bd.R", bd["R"]), "delta": tt.P("bd.delta", bd["delta"]), "s": tt.P("bd.s", bd["s"]),
                 "rho": tt.P("bd.rho", bd["rho"]), "origin": "origin"}
         if bd.get("times") == "relative":
@@ -315,8 +324,8 @@ def body(c):
     from torchtree.core.parameter import CatParameter, TransformedParameter, ViewParameter
     from torchtree.distributions.distributions import Distribution
 
-    views = sorted(k for k, o in dic.items() if isinstance(o, ViewParameter))
-    tps = sorted(k for k, o in dic.items() if isinstance(o, TransformedParameter) and k != "origin")
+    views = sorted(k for k, o in dic.items() if isinstance(o, ViewParameter) and k != "root_height.view")
+    tps = sorted(k for k, o in dic.items() if isinstance(o, TransformedParameter) and k not in ("origin", "root_height.affine"))
     dists = sorted(k for k, o in dic.items() if isinstance(o, Distribution) and not k.startswith("prior") and type(o.x).__name__ in ("Parameter", "CatParameter"))
     cats = sorted(k for k, o in dic.items() if isinstance(o, Distribution) and isinstance(o.x, CatParameter))
     tree = dic.get("tree")
